@@ -11,6 +11,7 @@ Definition cb : label := R_connect_begin.
 Definition cs (k : N) : label := R_connect_start (N.to_nat k).
 Definition ca (k : N) : label := R_connack (N.to_nat k).
 Definition ib (k m : N) : label := B_inbound (N.to_nat k) m.
+Definition ih (k m h : N) : label := B_inbound_handle (N.to_nat k) m (hv h).  (* the handler called for m calls Handle(h) *)
 Definition cr (k : N) : label := R_connect_return (N.to_nat k).
 Definition en (k : N) : label := R_end (N.to_nat k).
 
@@ -93,5 +94,11 @@ Example c17_check_selftest :
                      [oh 0 7 1; od 1 8; oh 1 9 2]) = true /\
   c17_prop_ok ([uh 1; dl 0; sc 0; cb; cs 0; ca 0; ib 0 7], [od 0 7]) = false /\
   c17_race_model_ok ([uh 1; dl 0; sc 0; cb; cs 0; ca 0], 2, [ib 0 7; ib 0 8], [ib 0 9], [oh 0 7 1; oh 0 8 2; oh 0 9 2]) = true /\
-  c17_race_prop_ok ([uh 1; dl 0; sc 0; cb; cs 0; ca 0], 2, [ib 0 7; ib 0 8], [ib 0 9], [oh 0 7 2; oh 0 8 1; oh 0 9 2]) = false.
+  c17_race_prop_ok ([uh 1; dl 0; sc 0; cb; cs 0; ca 0], 2, [ib 0 7; ib 0 8], [ib 0 9], [oh 0 7 2; oh 0 8 1; oh 0 9 2]) = false /\
+  c17_loop_model_ok ([uh 1; dl 0; sc 0; cb; cs 0; ca 0; ih 0 7 2; ib 0 8; en 0; dl 0; sc 1; cb; cs 1; ca 1; ih 1 9 0; ib 1 10],
+                     [oh 0 7 1; oh 0 8 2; oh 1 9 2; od 1 10]) = true /\
+  c17_loop_prop_ok ([uh 1; dl 0; sc 0; cb; cs 0; ca 0; ih 0 7 2; ib 0 8], [oh 0 7 1; oh 0 8 1]) = false /\
+  (* Handle racing with Connect (stress family): whatever the interleaving, the message sent after both returned goes to h2 *)
+  c17_race_prop_ok ([uh 1; dl 0; sc 0], 2, [cb; cs 0; ca 0; ib 0 1; cr 0], [ib 0 2], [oh 0 1 1; oh 0 2 2]) = true /\
+  c17_race_prop_ok ([uh 1; dl 0; sc 0], 2, [cb; cs 0; ca 0; ib 0 1; cr 0], [ib 0 2], [oh 0 1 1; oh 0 2 1]) = false.
 Proof. vm_compute. repeat split. Qed.
